@@ -1345,11 +1345,12 @@ def check_scale(ctx, st, rng, quick, tag):
     check_oracle(ctx, st, ladder, tag + "l", "the result at size m is not the closed-form function of m")
     # the same zone programs through the proved pipeline: bytes vs FnCompile, FnSem / FnVM vs the real VM
     if len(ctx.violations) == nv or not quick:
-        check_functions(ctx, st, [(c[0], c[2]) for c in zone], tag + "zf")
+        # (quick: every program up to 65 locals and a third of the 129 / 255 ones - about 1 s of model evaluation each)
+        check_functions(ctx, st, [(c[0], c[2]) for i, c in enumerate(zone) if not quick or c[2][2] <= 65 or i % 3 == 0], tag + "zf")
     # ... and through the model of the WHOLE compiler (a resolver change shows as different GetLocal / SetLocal operands)
     try:
         import fullcompile_corr as fc
-        sub = zone if not quick else [c for i, c in enumerate(zone) if i % 3 == 0]
+        sub = zone if not quick else [c for i, c in enumerate(zone) if i % 4 == 1]
         srcs = [("scale:%s" % (c[2],), c[0].encode()) for c in sub]
         fst, bad = fc.run_all(ctx.harness("release"), srcs, tag="C05fullcompile")
         failed = {b["name"] for b in bad if b.get("why") == "the model did not evaluate"}
